@@ -14,6 +14,7 @@ API (namespace `Dos.Codec`)
   `unmarshalG2 : Bytes → Out G2`
   `marshalGT : GT → Bytes`, `unmarshalGT : Bytes → Out GT`   (`GT = List Nat`, 12 coordinates in struct order)
   `marshalScalar : Nat → Out Bytes`, `unmarshalScalar : Bytes → Out Nat`
+  `equalG1/G2/GT` (`Equal` = comparison of the encodings)
   `unmarshalFrom size dec stream` = `UnmarshalFrom` on a reader holding `stream`: (bytes consumed, outcome)
   Montgomery level (what the limbs hold): `marshalG1M`, `unmarshalG1M`, … see the end of the file.
 -/
@@ -36,11 +37,7 @@ inductive Out (α : Type) where
   | ok (v : α)
   | err (e : DecErr)
   | panic (site : String)
-  deriving Repr
-
-instance [DecidableEq α] : DecidableEq (Out α) := by
-  intro a b
-  cases a <;> cases b <;> simp <;> exact inferInstance
+  deriving Repr, DecidableEq
 
 def Out.bind : Out α → (α → Out β) → Out β
   | .ok v, f => f v
@@ -66,10 +63,23 @@ def gfpUnmarshal (inp : Bytes) : Out Nat :=
 /-- `gfP.Marshal` of a decoded coordinate -/
 def be32 (n : Nat) : Bytes := natBE 32 n
 
-/-- read the coordinate at byte offset `off` of `buf` -/
-def coordAt (buf : Bytes) (off : Nat) : Out Nat := do
-  let s ← sliceFrom buf off
-  gfpUnmarshal s
+/-- `n` consecutive reads `c_i.Unmarshal(buf[i*32:])` (G1: two, G2: four after the tag byte, GT: twelve):
+read a coordinate, re-slice 32 bytes further (`buf[(i+1)*32:] = buf[i*32:][32:]`) -/
+def readCoords : Nat → Bytes → Out (List Nat)
+  | 0, _ => .ok []
+  | n + 1, buf =>
+    match gfpUnmarshal buf with
+    | .ok c =>
+      match sliceFrom buf 32 with
+      | .ok rest =>
+        match readCoords n rest with
+        | .ok cs => .ok (c :: cs)
+        | .err e => .err e
+        | .panic s => .panic s
+      | .err e => .err e
+      | .panic s => .panic s
+    | .err e => .err e
+    | .panic s => .panic s
 
 /-! ### G1 -/
 
@@ -77,15 +87,21 @@ def marshalG1 : G1 → Bytes
   | .inf => List.replicate 64 0
   | .aff x y => be32 x ++ be32 y
 
+/-- what `UnmarshalBinary` does with the two numbers it read -/
+def g1OfCoords (x y : Nat) : Out G1 :=
+  if x ≥ p ∨ y ≥ p then .err .noncanon
+  else if x = 0 ∧ y = 0 then .ok .inf            -- z := 0; IsOnCurve(infinity) = true
+  else if G1.onCurve (.aff x y) then .ok (.aff x y)
+  else .err .malformed
+
 def unmarshalG1 (buf : Bytes) : Out G1 :=
   if buf.length < 64 then .err .short
-  else do
-    let x ← coordAt buf 0
-    let y ← coordAt buf 32
-    if x ≥ p ∨ y ≥ p then .err .noncanon
-    else if x = 0 ∧ y = 0 then .ok .inf            -- z := 0; IsOnCurve(infinity) = true
-    else if G1.onCurve (.aff x y) then .ok (.aff x y)
-    else .err .malformed
+  else
+    match readCoords 2 buf with
+    | .ok [x, y] => g1OfCoords x y
+    | .ok _ => .panic "unreachable"
+    | .err e => .err e
+    | .panic s => .panic s
 
 /-! ### G2 -/
 
@@ -93,22 +109,29 @@ def marshalG2 : G2 → Bytes
   | .inf => [0]
   | .aff x y => [1] ++ be32 x.im ++ be32 x.re ++ be32 y.im ++ be32 y.re
 
+def g2OfCoords (xi xr yi yr : Nat) : Out G2 :=
+  if xi ≥ p ∨ xr ≥ p ∨ yi ≥ p ∨ yr ≥ p then .err .noncanon
+  else if xi = 0 ∧ xr = 0 ∧ yi = 0 ∧ yr = 0 then .ok .inf
+  else
+    let P := G2.aff ⟨xi, xr⟩ ⟨yi, yr⟩
+    if !G2.onCurve P then .err .malformed          -- curve equation
+    else if !G2.inSubgroup P then .err .malformed  -- `cneg.Mul(c, Order)`, `cneg.z.IsZero()`
+    else .ok P
+
 def unmarshalG2 (buf : Bytes) : Out G2 :=
   if buf.head? = some 0 then .ok .inf
   else if buf.length > 0 ∧ buf.head? ≠ some 1 then .err .malformed
   else if buf.length < 129 then .err .short
-  else do
-    let xi ← coordAt buf 1
-    let xr ← coordAt buf 33
-    let yi ← coordAt buf 65
-    let yr ← coordAt buf 97
-    if xi ≥ p ∨ xr ≥ p ∨ yi ≥ p ∨ yr ≥ p then .err .noncanon
-    else if xi = 0 ∧ xr = 0 ∧ yi = 0 ∧ yr = 0 then .ok .inf
-    else
-      let P := G2.aff ⟨xi, xr⟩ ⟨yi, yr⟩
-      if !G2.onCurve P then .err .malformed
-      else if !G2.inSubgroup P then .err .malformed
-      else .ok P
+  else
+    match sliceFrom buf 1 with
+    | .ok body =>
+      match readCoords 4 body with
+      | .ok [xi, xr, yi, yr] => g2OfCoords xi xr yi yr
+      | .ok _ => .panic "unreachable"
+      | .err e => .err e
+      | .panic s => .panic s
+    | .err e => .err e
+    | .panic s => .panic s
 
 /-! ### GT: twelve coordinates, no membership test -/
 
@@ -116,13 +139,13 @@ abbrev GT := List Nat
 
 def marshalGT (g : GT) : Bytes := (g.map be32).flatten
 
-def gtOffsets : List Nat := [0, 32, 64, 96, 128, 160, 192, 224, 256, 288, 320, 352]
-
 def unmarshalGT (buf : Bytes) : Out GT :=
   if buf.length < 384 then .err .short
-  else do
-    let cs ← gtOffsets.mapM (coordAt buf)
-    if cs.any (fun c => c ≥ p) then .err .noncanon else .ok cs
+  else
+    match readCoords 12 buf with
+    | .ok cs => if cs.any (fun c => c ≥ p) then .err .noncanon else .ok cs
+    | .err e => .err e
+    | .panic s => .panic s
 
 /-! ### scalars (`mod.Int` with modulus `Order`, big-endian) -/
 
@@ -135,6 +158,11 @@ def unmarshalScalar (buf : Bytes) : Out Nat :=
   if buf.length ≠ 32 then .err .size
   else if beNat buf ≥ r then .err .range
   else .ok (beNat buf)
+
+/-! ### `Equal`: point.go compares the two encodings (`subtle.ConstantTimeCompare`) -/
+def equalG1 (P Q : G1) : Bool := marshalG1 P == marshalG1 Q
+def equalG2 (P Q : G2) : Bool := marshalG2 P == marshalG2 Q
+def equalGT (P Q : GT) : Bool := marshalGT P == marshalGT Q
 
 /-! ### stream API: `UnmarshalFrom(r)` = `io.ReadFull(r, make([]byte, size))` then `UnmarshalBinary` -/
 
